@@ -29,6 +29,8 @@ MARKETS = {
     'blankstart': {'AAA': ('falling', '41.37'), 'BBB': ('zigzag', '103.11'), 'CCC': ('rising', '17.93')},
     # bars with zero traded volume (halted / illiquid days) are bars like any other
     'zerovol': {'AAA': ('rising', '41.37'), 'BBB': ('gapdown', '103.11'), 'CCC': ('zigzag', '17.93')},
+    # an exchange holiday on the business month end (Fri 28 Feb): no asset has a bar that day, all have bars after it
+    'holiday': {'AAA': ('rising', '41.37'), 'BBB': ('zigzag', '103.11'), 'CCC': ('gapdown', '17.93')},
     # a second data source (listed after the first) carries AAA at other prices and with a LONGER file
     'twosrc': {'AAA': ('rising', '41.37'), 'BBB': ('zigzag', '103.11'), 'CCC': ('falling', '17.93'),
                'AAA@2': ('falling', '77.77'), 'CCC@2': ('rising', '55.05')},
@@ -43,6 +45,10 @@ def base_market(name):
         rows[i] = (rows[i][0], None, rows[i][2])         # a missing open
         rows2 = m['CCC']
         rows2[i + 1] = (rows2[i + 1][0], rows2[i + 1][1], None)   # a missing close
+    if name == 'holiday':
+        hol = datetime.date(2020, 2, 28)
+        for sym in list(m):
+            m[sym] = [r for r in m[sym] if r[0] != hol]
     if name == 'twosrc':
         # the first source's AAA file stops three days before the window ends; the second source's goes on
         m['AAA'] = m['AAA'][:-3]
@@ -214,7 +220,7 @@ def item_eval(item):
 
 def items(tier):
     cfgs = configs(tier)
-    markets = ['m0', 'late', 'hole', 'gap', 'blankstart', 'zerovol', 'twosrc'] if tier == 'quick' else list(MARKETS)
+    markets = ['m0', 'late', 'hole', 'gap', 'blankstart', 'zerovol', 'twosrc', 'holiday'] if tier == 'quick' else list(MARKETS)
     rewrites = ['remove', 'reverse', 'blank'] if tier == 'quick' else REWRITES
     cuts = [c.isoformat() for c in CUTS]
     size = 10 if tier == 'quick' else 25
